@@ -130,12 +130,68 @@ def global_mutations(sm: SourceModel):
   return uniq
 
 
+def _complete_key_memo(sm: SourceModel, fkey: str, gname: str, ln: int) -> bool:
+  """Is the `setitem` at line ln the store of a memo idiom with a complete key?
+
+      k = K(params)                     # single assignment (or K used directly)
+      if k in D: return D[k]            # the only read of D
+      def g(...): ...                   # nested definition built on a miss
+      D[k] = g
+
+  complete key: every name of the enclosing function that g captures is either k itself or occurs in g only inside
+  sub-expressions identical to K - so two calls with the same key build the same g, and the cache cannot make a result
+  depend on which call came first (same argument as the repo's own cache_kernel wrapper, R-GLOBAL.7)."""
+  try:
+    fn = sm.func(fkey).node
+  except Exception:
+    return False
+  store = None
+  for n in ast.walk(fn):
+    if isinstance(n, ast.Assign) and n.lineno == ln and len(n.targets) == 1 and isinstance(n.targets[0], ast.Subscript):
+      t = n.targets[0]
+      if isinstance(t.value, ast.Name) and t.value.id == gname:
+        store = n
+  if store is None or not isinstance(store.value, ast.Name):
+    return False
+  kexpr = store.targets[0].slice
+  K = kexpr
+  if isinstance(kexpr, ast.Name):
+    asg = [st for st in ast.walk(fn) if isinstance(st, ast.Assign) and len(st.targets) == 1 and isinstance(st.targets[0], ast.Name) and st.targets[0].id == kexpr.id]
+    if len(asg) != 1:
+      return False
+    K = asg[0].value
+  kdump, kname = ast.dump(K), (kexpr.id if isinstance(kexpr, ast.Name) else None)
+  # early return on a hit
+  hit = False
+  for st in fn.body:
+    if isinstance(st, ast.If) and isinstance(st.test, ast.Compare) and len(st.test.ops) == 1 and isinstance(st.test.ops[0], ast.In) and ast.dump(st.test.left) == ast.dump(kexpr) and isinstance(st.test.comparators[0], ast.Name) and st.test.comparators[0].id == gname:
+      if any(isinstance(x, ast.Return) and isinstance(x.value, ast.Subscript) and isinstance(x.value.value, ast.Name) and x.value.value.id == gname and ast.dump(x.value.slice) == ast.dump(kexpr) for x in st.body):
+        hit = True
+  if not hit:
+    return False
+  g = next((st for st in fn.body if isinstance(st, (ast.FunctionDef,)) and st.name == store.value.id), None)
+  if g is None:
+    return False
+  outer = {a.arg for a in fn.args.args + fn.args.kwonlyargs} | {t.id for st in ast.walk(fn) if isinstance(st, ast.Assign) and not any(st is x for x in ast.walk(g)) for t in st.targets if isinstance(t, ast.Name)}
+  own = {a.arg for a in g.args.args} | {t.id for st in ast.walk(g) if isinstance(st, (ast.Assign, ast.AugAssign, ast.For)) for t in (st.targets if isinstance(st, ast.Assign) else [st.target]) for t in ast.walk(t) if isinstance(t, ast.Name)}
+  covered = set()
+  for x in ast.walk(g):
+    if ast.dump(x) == kdump:
+      covered |= {id(y) for y in ast.walk(x)}
+  for x in ast.walk(g):
+    if isinstance(x, ast.Name) and x.id in outer and x.id not in own and x.id != kname and id(x) not in covered:
+      return False
+  return True
+
+
 def check_global_mutations(res: Result, sm: SourceModel):
   n = 0
   for mn, fkey, (gm, gname), how, ln in global_mutations(sm):
     n += 1
     tab = global_tables.ALLOWED_GLOBAL_MUTATIONS.get((gm, gname))
     ok = tab is not None and (tab[0] == "*" or fkey.split(".")[0] + "." + fkey.split(".")[1] in tab[0] or fkey in tab[0])
+    if not ok and how == "setitem" and gm == mn and _complete_key_memo(sm, fkey, gname, ln):
+      ok = True
     res.ob(
       ok,
       f"{gm}.{gname}|{fkey}|{how}",
